@@ -226,6 +226,7 @@ func (t *Tree) Save() []byte {
 			}
 		}
 
+		verifSaveGate(t)
 		beg := types.Now()
 		err := t.ndb.Commit()
 		treelog.Debug("tree.commit", "cost", types.Since(beg))
